@@ -9,6 +9,16 @@ COMMON_ASSUME = [
 ]
 
 PROPS = {
+  'C20': {
+    'rule': 'cases = (virtual clock: start value with nanosecond field at both ends, cycle of 1..8 per-reading increments from {0,1ns,..,2s}; 1..4 threads with scripts of nanosleep/usleep/sleep (incl. zero, carries, malformed fields), timedlock against holder sections and on uncontended mutexes, timedjoin against targets of generated length, deadlines past / in k ticks -1/0/+1 ns; one quarter of the cases on one worker with an always-runnable sibling; W in 1..8; schedule); '
+            'non-trivial = a sleep really polled the clock (>= 3 readings) or a timed lock / timed join timed out; distinct = hash of (program, schedule, seed)',
+    'assumptions': COMMON_ASSUME + ['the clock is virtual (guarded hook in hr_gettime); real-clock behaviour is only exercised by the pinned tests', 'either timeout code (ETIMEDOUT / EBUSY) is accepted as "a timeout error"'],
+    'stages': [
+      {'kind': 'replays', 'name': 'replay', 'variant': 'v0'},
+      {'kind': 'pbt', 'name': 'time-v0', 'variant': 'v0', 'prop': 20, 'cases': (1500, 20000), 'prog_max': 160, 'sched_max': 256},
+      {'kind': 'pbt', 'name': 'time-v2', 'variant': 'v2', 'prop': 20, 'cases': (400, 10000), 'prog_max': 160, 'sched_max': 256},
+    ],
+  },
   'C03': {
     'rule': 'cases = (T in 1..8 probe threads running one generated phase list: yield x5 options, create+join child-first/parent-first with default/custom stacks, contended mutex, barrier, condvar turnstile, join counter, uncond mailbox; six generated 64-bit patterns in rbx,rbp,r12-r15 and a stack array of 64B..32KiB around every switching call; thread entry through an assembly stub recording rsp mod 16; W in 1..8 (16 thorough); schedule); '
             'non-trivial = at least one probed call really switched (another thread ran on the worker during the call, or the thread came back on another worker); distinct = hash of (phases, schedule, seed)',
